@@ -3,10 +3,16 @@
 use crate::report::Rep;
 use crate::world::World;
 
+pub mod c05;
 pub mod c08;
+pub mod script;
+
+use crate::enumerate::{self, Chooser};
+use script::{Act, Alpha};
 
 pub fn dispatch(check: &str, rep: &mut Rep) -> bool {
     match check {
+        "c05" => c05::run(rep),
         "c08" => c08::run(rep),
         _ => return false,
     }
@@ -54,4 +60,62 @@ pub fn add_counters(rep: &mut Rep, w: &World) {
     rep.add("sweeps", w.sim.sweeps as i64);
     rep.max("max_outstanding_reached", w.max_inflight_seen as i64);
     rep.max("max_transport_calls_in_one_poll", w.sim.max_io_calls_in_poll as i64);
+}
+
+/// Bounded-exhaustive exploration of every path of at most `depth` actions over `alpha`.
+pub fn explore_world(rep: &mut Rep, name: &str, depth: usize, mk: &dyn Fn() -> World, alpha: &Alpha) {
+    let body = |rep: &mut Rep, ch: &mut Chooser| {
+        let mut w = mk();
+        let acts = script::run_path(&mut w, alpha, ch);
+        if ch.probe {
+            return;
+        }
+        let id = format!("{name}:{}", ch.id());
+        rep.add("evaluations", 1);
+        rep.add("paths_enumerated", 1);
+        rep.max("max_path_length", acts.len() as i64);
+        rep.distinct(&w.shape());
+        let nv = harvest(rep, &mut w, &id);
+        if nv == 0 && acts.len() == depth {
+            rep.sample(|| format!("{id} {:?}", acts));
+        }
+        add_counters(rep, &w);
+    };
+    if let Some(only) = rep.only.clone() {
+        if let Some(path) = only.strip_prefix(&format!("{name}:")) {
+            let mut ch = Chooser::fixed(enumerate::parse_id(path));
+            body(rep, &mut ch);
+        }
+        return;
+    }
+    let (shard, nshards) = (rep.shard, rep.nshards);
+    let mut rep_cell = std::cell::RefCell::new(rep);
+    enumerate::explore(depth, 2, shard, nshards, |ch| {
+        let mut r = rep_cell.borrow_mut();
+        body(&mut r, ch)
+    });
+    let _ = &mut rep_cell;
+}
+
+/// Random walks over `alpha`.
+pub fn walk_world(rep: &mut Rep, name: &str, walks: u64, steps: usize, mk: &dyn Fn(u64) -> World, alpha: &Alpha) {
+    for k in 0..walks {
+        let id = format!("{name}:{k}");
+        if !rep.take(k, &id) {
+            continue;
+        }
+        let seed = rep.seed.wrapping_mul(1_000_003).wrapping_add(k);
+        let mut rng = crate::sim::Rng::new(seed);
+        let mut w = mk(seed);
+        let acts = script::run_walk(&mut w, alpha, &mut rng, steps);
+        rep.add("evaluations", 1);
+        rep.add("random_walks", 1);
+        rep.add("random_walk_actions", acts.len() as i64);
+        rep.distinct(&w.shape());
+        let nv = harvest(rep, &mut w, &id);
+        if nv == 0 {
+            rep.sample(|| format!("{id} ({} actions) first 12: {:?}", acts.len(), &acts[..acts.len().min(12)]));
+        }
+        add_counters(rep, &w);
+    }
 }
